@@ -107,7 +107,7 @@ func checkC04(c *Check) {
 		why := "stored object is " + trimOrg(f.Val.String())
 		if fresh {
 			for _, s := range t.Of("userstore") {
-				if s.EP == f.EP && sameOrg(s.U, f.Val) && (s.Field == "hasRUL" || s.Field == "login") && !t.BindFns[s.Fn] {
+				if s.EP == f.EP && sameOrg(s.U, f.Val) && (s.Field == "hasRUL" || s.Field == "login") && !t.BindFns[s.Fn] && !isZeroOrg(s.Val) {
 					fresh = false
 					why = "new session object is created with " + s.Field + " already set"
 				}
